@@ -91,6 +91,18 @@ def finding_key(o):
     return "C11:rollup-root-recurrence" if _rollup_recurrence(o) else None
 
 
+def extra_checks(chk):
+    """Search for a failing input when an obligation broke but the L1-history stream (no reorgs, no storage faults) found none:
+    the reorg and fault/retry scenarios of the same store (the l1infotreesync parts of C04 / C07) are run as well."""
+    concrete = any(sfx == "" for (_, sfx) in chk.violations)
+    if getattr(chk, "proof_failed", None) and not concrete:
+        lc.run_c04_part(chk)
+        if not any(sfx == "" for (_, sfx) in chk.violations):
+            cov04 = chk.cov.get("l1info_store")
+            lc.run_c07_part(chk)
+            chk.cov["l1info_store_c04"] = cov04
+
+
 LEVEL_TEXT = ("Kernel-checked theorems over the executable store model (all histories of blocks with any storage fault, reorgs and restarts): "
               "L1 info leaves carry consecutive indices in (block, position) order; leaf hash = the GER contract's leaf value; lookups by "
               "index and by GER are total; a consistent announcement never halts and a mismatching one halts; a failed block leaves the "
